@@ -76,7 +76,8 @@ Inductive exn :=
 | ETransport                     (* raised by transport.write (fault injected) *)
 | EEscape (cls : string).        (* anything not derived from AIOMySensorsError *)
 
-Record wevent := { we_line : str; we_ok : bool }.
+(* one transport.write attempt: the line, whether it succeeded, and (ghost) the message it encodes *)
+Record wevent := { we_line : str; we_ok : bool; we_msg : msg }.
 
 Record st := {
   s_w : world;
@@ -111,15 +112,15 @@ Definition try_finally {A} (body : M A) (fin : M unit) : M A :=
                end
            end.
 
-(* transport.write(line) *)
-Definition write (line : str) : M unit :=
+(* transport.write(decoded_message), where decoded_message is always the dump of a message *)
+Definition write_msg (m : msg) : M unit :=
   fun s =>
     let '(fault, rest) := match s_faults s with
                           | [] => (false, [])
                           | b :: r => (b, r)
                           end in
     let s' := {| s_w := s_w s;
-                 s_log := {| we_line := line; we_ok := negb fault |} :: s_log s;
+                 s_log := {| we_line := encode m; we_ok := negb fault; we_msg := m |} :: s_log s;
                  s_faults := rest |} in
     if fault then (inr ETransport, s') else (inl tt, s').
 
@@ -252,7 +253,6 @@ Section WithOracles.
 
   Definition send (m : msg) (buffered : bool) : M unit :=
     w <- get_w ;;
-    let line := encode m in
     match enum_lname_of (pt_command (proto_of w)) (m_cmd m) with
     | None => raise (EEscape "ValueError")         (* protocol.Command(message.command) *)
     | Some cname =>
@@ -264,7 +264,7 @@ Section WithOracles.
             match decs, out_body_of module hname with
             | [], Some OSet =>
                 let direct :=
-                  write line ;;;
+                  write_msg m ;;;
                   (if buffered then set_setbuf (fun b => dpop key_eqb b (msg_key m)) else ret tt) in
                 match dget Z.eqb (w_nodes w) (m_node m) with
                 | Some n =>
@@ -276,7 +276,7 @@ Section WithOracles.
             | [], Some OInternal =>
                 if buffered
                 then set_internal (fun b => dset key_eqb b (msg_key m) m)
-                else write line
+                else write_msg m
             | _, _ => raise (EEscape "unmodelled outgoing handler")
             end
         end
